@@ -223,6 +223,39 @@ impl BuiltInObject for Json {
 }
 
 impl Json {
+    /// Deepest nesting of arrays and objects that `JSON.parse` accepts.
+    const MAX_NESTING_DEPTH: usize = 128;
+
+    /// Nesting depth of the arrays and objects of a grammatically valid JSON text.
+    fn nesting_depth(text: &str) -> usize {
+        let mut depth = 0usize;
+        let mut max = 0usize;
+        let mut in_string = false;
+        let mut escaped = false;
+        for b in text.bytes() {
+            if in_string {
+                if escaped {
+                    escaped = false;
+                } else if b == b'\\' {
+                    escaped = true;
+                } else if b == b'"' {
+                    in_string = false;
+                }
+            } else {
+                match b {
+                    b'"' => in_string = true,
+                    b'[' | b'{' => {
+                        depth += 1;
+                        max = max.max(depth);
+                    }
+                    b']' | b'}' => depth = depth.saturating_sub(1),
+                    _ => {}
+                }
+            }
+        }
+        max
+    }
+
     /// `JSON.parse( text[, reviver] )`
     ///
     /// This `JSON` method parses a JSON string, constructing the JavaScript value or object described by the string.
@@ -241,24 +274,35 @@ impl Json {
             .first()
             .cloned()
             .unwrap_or_default()
-            .to_string(context)?
-            .to_std_string()
-            .map_err(|e| JsNativeError::syntax().with_message(e.to_string()))?;
+            .to_string(context)?;
 
         // 2. Parse ! StringToCodePoints(jsonString) as a JSON text as specified in ECMA-404.
         //    Throw a SyntaxError exception if it is not a valid JSON text as defined in that specification.
-        if let Err(e) = serde_json::from_str::<serde_json::Value>(&json_string) {
+        //
+        // NOTE: Only the grammar is checked here. Lone surrogates (valid inside JSON strings, raw
+        //       or escaped) are replaced in the checked copy only, and no value is built, so
+        //       numbers outside the `f64` range (which evaluate to an infinity) are not rejected.
+        let checked_copy = json_string.to_std_string_lossy();
+        if let Err(e) = serde_json::from_str::<serde::de::IgnoredAny>(&checked_copy) {
             return Err(JsNativeError::syntax().with_message(e.to_string()).into());
+        }
+        if Self::nesting_depth(&checked_copy) > Self::MAX_NESTING_DEPTH {
+            return Err(JsNativeError::syntax()
+                .with_message("recursion limit exceeded")
+                .into());
         }
 
         // Check if a reviver is provided, to determine if we need source text tracking
         let has_reviver = args.get_or_undefined(1).is_callable();
 
         // 3. Let scriptString be the string-concatenation of "(", jsonString, and ");".
-        let script_string = format!("({json_string});");
+        let mut script_string = Vec::with_capacity(json_string.len() + 3);
+        script_string.push(u16::from(b'('));
+        script_string.extend(json_string.iter());
+        script_string.extend([u16::from(b')'), u16::from(b';')]);
 
         // 4-10. Parse and evaluate the script
-        let source = Source::from_bytes(&script_string);
+        let source = Source::from_utf16(&script_string);
         let mut parser = Parser::new(source);
         parser.set_json_parse();
 
